@@ -77,8 +77,14 @@ Fixpoint cstr (l : list byte) : list byte :=
   | c :: r => if c =? 0 then [] else c :: cstr r
   end.
 
-(* char* fmt_buf = malloc(strlen(fmt)+1) *)
-Definition bufsize (fmt : list byte) : nat := length fmt + print_buf_extra.
+(* the capacity of the piece buffer fmt_buf:
+     char* fmt_buf = malloc(strlen(fmt)+EXTRA)                                    (print_buf_stack_cap = 0)
+     char stack[CAP]; fmt_buf = strlen(fmt)+TEST <= CAP ? stack : malloc(strlen(fmt)+EXTRA)
+   EXTRA, CAP, TEST are read from the source (print_buf_extra, print_buf_stack_cap, print_buf_stack_test) *)
+Definition bufsize (fmt : list byte) : nat :=
+  if length fmt + print_buf_stack_test <=? print_buf_stack_cap
+  then print_buf_stack_cap
+  else length fmt + print_buf_extra.
 
 (* memcpy(fmt_buf, start, n); fmt_buf[n] = '\0';
    reads fmt[start .. start+n-1], writes fmt_buf[0 .. n]; the result is the C string in fmt_buf *)
